@@ -6,3 +6,5 @@ import DSymVerif.Props.C09
 #print axioms DSymVerif.C09.edge_words_inverse_den
 #print axioms DSymVerif.C09.gen_to_edge_injective
 #print axioms DSymVerif.C09.relators_sorted
+#print axioms DSymVerif.C09.relators_are_traced_words
+#print axioms DSymVerif.C09.cones_are_traced_words
